@@ -173,8 +173,12 @@ func (h *HttpServer) readHTTPBody(r *http.Request) ([]byte, error) {
 		decompressedCap := h.maxDecompressedBodySize
 		if requestCapApplied && (decompressedCap <= 0 || limit < decompressedCap) {
 			decompressedCap = limit
-		} else if decompressedCap <= 0 && limit > 0 {
+		} else if decompressedCap == 0 && limit > 0 {
 			decompressedCap = capTimes16(limit)
+		} else if decompressedCap < 0 {
+			// Explicitly disabled (SetMaxDecompressedBodySize with a
+			// negative value): no decoded-size cap of its own.
+			decompressedCap = 0
 		}
 		return decompressBounded(encoding, body, decompressedCap)
 	default:
